@@ -187,12 +187,18 @@ def go {σ : Type} (I : Impl σ) (fin : Fin) (reuse : Bool) : σ → Bool → Sr
   | s, false, .done, .closeSend :: cs =>
       cev .closed (go I fin reuse s true .done cs)
   | _, _, .done, _ :: _ => stuckT
-  -- the call was aborted by the client: only the terminal RecvMsg is defined on both transports
-  -- (grpc-go's Header() after a cancel depends on whether the HEADERS frame was already processed)
+  -- the call was aborted by the client: the terminal RecvMsg, and Header(): what was SENT as header before
+  -- the abort, nothing if headers were only staged (`clientStream.Header`'s ctx.Done branch probes the latch).
+  -- (grpc-go's Header() after a cancel depends on whether the HEADERS frame was already processed when one
+  -- was written: `sync` admits the op only when none was; Trailer() after an abort is the recorded finding)
   | _, _, .aborted, [] => endT
   | s, cc, .aborted, .recv :: cs =>
       match I.terminal s with
       | some e => cev e (go I fin reuse s cc .aborted cs)
+      | none => stuckT
+  | s, cc, .aborted, .header :: cs =>
+      match I.header s with
+      | some md => cev (.hdr md) (go I fin reuse s cc .aborted cs)
       | none => stuckT
   | _, _, .aborted, _ :: _ => stuckT
 termination_by _ _ srv cs => srv.size + cs.length
